@@ -95,7 +95,7 @@ PROPS = {
         assumptions=[],
     ),
     "C07": dict(
-        modules=['Gopki.Props.C07', 'Gopki.Props.C05', 'Gopki.Props.Tags'], theorems=['C07.C07_keyusage_bits', 'C07.C07_keyusage_names', 'C07.decInt_natIntBytes', 'C07.C07_basic_constraints_roundtrip', 'C07.C07_ski_roundtrip', 'C07.C07_oid_roundtrip', 'C07.C07_san_roundtrip', 'C07.C07_eku_roundtrip', 'C07.C07_aia_roundtrip', 'C07.C07_int_roundtrip', 'C07.C07_policies_roundtrip', 'StrLemmas.fromUTF8_toUTF8_list', 'X509.decodeDer_enc', 'X509.decodeDer_sound', 'C05.model_general_name_tags_eq_facts', 'C05.model_eku_names_eq_facts', 'Tags.tags_policies'], ops=['ext', 'pki'],
+        modules=['Gopki.Props.C07', 'Gopki.Props.C05', 'Gopki.Props.Tags'], theorems=['C07.C07_keyusage_bits', 'C07.C07_keyusage_names', 'C07.decInt_natIntBytes', 'C07.C07_basic_constraints_roundtrip', 'C07.C07_ski_roundtrip', 'C07.C07_aki_roundtrip', 'C07.C07_oid_roundtrip', 'C07.C07_san_roundtrip', 'C07.C07_eku_roundtrip', 'C07.C07_aia_roundtrip', 'C07.C07_int_roundtrip', 'C07.C07_policies_roundtrip', 'StrLemmas.fromUTF8_toUTF8_list', 'X509.decodeDer_enc', 'X509.decodeDer_sound', 'C05.model_general_name_tags_eq_facts', 'C05.model_eku_names_eq_facts', 'Tags.tags_policies'], ops=['ext', 'pki'],
         rule="ext: all 128 key-usage subsets, basicConstraints ca x pathLen in {absent,0,1,2,127,128,255,256,65535} (thorough 0..255), key identifiers hashed and explicit (1/20/200 bytes), every kind with raw !null/!empty/!binary (4 and 900 bytes) and without content, "
              "3000 (thorough 60000) random structured contents of the nine structured kinds, SAN/admission IP boundary and malformed addresses, all 256 subsets of optional admission members x four authority kinds, strings the encoders must reject; "
              "the model must produce the same bytes and the RFC 5280 / CommonPKI decoders must read the configured content back; non-trivial = structured content emitted" + " | " + "pki: forests of 1-5 entities (random parent vector, nested directories, yaml/yml/json), every key algorithm except RSA>=2048 in quick, configured/omitted signature algorithms, "
@@ -152,7 +152,7 @@ PROPS = {
         assumptions=[],
     ),
     "C19": dict(
-        modules=["Gopki.Props.C19"], theorems=['C19.C19_outer_leaves_tbs', 'C19.C19_version_frame', 'C19.C19_tbs_signature_frame', 'C19.C19_public_key_frame', 'C19.C19_public_key_alg_frame', 'C19.C19_sign_keeps_preset', 'C19.C19_ski_follows_bits', 'C19.C19_apply_total', 'C19.C19_bad_oid_reported'], ops=['pki'],
+        modules=["Gopki.Props.C19"], theorems=['C19.C19_outer_leaves_tbs', 'C19.C19_version_frame', 'C19.C19_tbs_signature_frame', 'C19.C19_public_key_frame', 'C19.C19_public_key_alg_frame', 'C19.C19_sign_keeps_preset', 'C19.C19_ski_follows_bits', 'C19.C19_decomposition', 'C19.applyTbsManip_empty', 'C19.C19_apply_total', 'C19.C19_bad_oid_reported'], ops=['pki'],
         rule="pki: forests of 1-5 entities (random parent vector, nested directories, yaml/yml/json), every key algorithm except RSA>=2048 in quick, configured/omitted signature algorithms, "
              "subjects from the documented grammar incl. UTF-8 and custom OIDs, 0-6 extensions of all 11 kinds, serials, unique ids, validity forms, manipulations in 1 of 5 forests, 6 zone offsets, 5 flag sets; "
              "every generated certificate is compared byte for byte with the model and read by the strict decoder; non-trivial = at least one certificate generated",
